@@ -20,11 +20,11 @@ def spec(tier):
             jobs.append(dict(unit=u, entry=e, unwind=grow,
                              bounds="storage %d bytes, item_size %d, length symbolic, all bytes symbolic, indices unconstrained 64-bit" % (cur, i),
                              what="array list one-step from arbitrary valid list (static or dynamic), item_size %d, storage %d bytes: %s" % (i, cur, e)))
-    sizes = [1, 127, 128, 129, 256, 300] if tier == "quick" else [1, 2, 64, 127, 128, 129, 200, 255, 256, 257, 299, 300]
+    sizes = [1, 2, 127, 128, 129, 256, 300] if tier == "quick" else [1, 2, 3, 64, 127, 128, 129, 200, 255, 256, 257, 299, 300, 384, 1000]
     for isz in sizes:
         u = "swap%d" % isz
         units[u] = dict(harness=["C09/h_alist.c"], sources=SRC, stubs=["base.c", "alloc_direct.c", "mem0.c"], defines={"ISZ": isz, "MAXB": 9, "MAXISZ": 3})
-        jobs.append(dict(unit=u, entry="h_swap", unwind=5,
+        jobs.append(dict(unit=u, entry="h_swap", unwind=max(5, isz // 128 + 3), timeout=900 if tier == "quick" else 3000,
                          bounds="3 elements of %d bytes, all bytes symbolic, indices symbolic" % isz,
                          what="aws_array_list_swap with item_size %d (128-byte slices + remainder)" % isz))
     for e in ["h_ll_single", "h_ll_swap_nodes", "h_ll_two_lists", "h_ll_init"]:
